@@ -30,6 +30,8 @@ def shards(tier):
             if (dev == "evo" and (sg, dg, same) == ("t2x2", "t2x2", True)) or tier == "thorough":
                 out.append(dict(op="transfer", dev=dev, sgeo=sg, dgeo=dg, same=same, k=2, steps=1 if tier == "quick" else 2, partition_by="auto", washes=[1], ncand=2,
                                 wl_max=common.BIG * 2 if tier == "quick" else "sym"))
+        # chained: a well that is first a destination and then a source within one call
+        out.append(dict(op="transfer", dev=dev, sgeo="p3x2", dgeo="p3x2", same=True, k=2, steps=1, partition_by="auto", washes=[1], cands=[[0, 1], [1, 2]], wl_max=common.BIG * 2))
         out.append(dict(op="distribute", dev=dev, sgeo="t2x2", dgeo="p2x2", k=1, steps=1, dsels=[[0], [0, 3]]))
         out.append(dict(op="distribute", dev=dev, sgeo="t2x2", dgeo="t2x2", same=True, k=1, steps=1, dsels=[[2], [0]]))
     for kind in ("plate2x2", "plate1x1", "plate1x2", "trough2x2", "trough3x1"):
